@@ -470,6 +470,7 @@ type call struct {
 	C       string   `json:"c"`
 	H       string   `json:"h"`
 	Servers []string `json:"servers"`
+	Spoof   string   `json:"spoof,omitempty"` // identity the peer claims: none (its own) | other (the other client's) | junk
 }
 
 type walk struct {
@@ -653,22 +654,22 @@ func runPublish(w *world) {
 		obs := walkObs{Init: p.project()}
 		prev := must(json.Marshal(obs.Init))
 		for _, k := range wk.Steps {
-			so := stepObs{Call: k}
+			so := stepObs{Call: call{Op: k.Op, C: k.C, H: k.H, Servers: k.Servers}}
 			c := p.clients[k.C]
 			other := p.clients["A"]
 			if k.C == "A" {
 				other = p.clients["B"]
 			}
 			cl := caller{cert: c.Cert, claimed: c.Verified}
-			switch r.Intn(4) { // what the peer claims to be must not matter
-			case 0:
-				so.Spoof = "none"
-			case 1, 2:
+			so.Spoof = k.Spoof
+			if so.Spoof == "" {
+				so.Spoof = []string{"none", "other", "other", "junk"}[r.Intn(4)]
+			}
+			switch so.Spoof { // what the peer claims to be must not matter
+			case "other":
 				cl.claimed = other.Verified
-				so.Spoof = "other"
-			default:
+			case "junk":
 				cl.claimed = &protocol.Node{Id: 424242, Address: "evil.example:1", Rendezvous: true}
-				so.Spoof = "junk"
 			}
 			w.tp.setCaller(cl)
 			ctx, cancel := w.callCtx()
